@@ -192,6 +192,25 @@ var subjects = []subject{
 				<-c.Done()
 				ca()
 			}},
+			{"CombineCancelledWhileWiring", func(r *rng.R) {
+				// the primary context is cancelled from inside the wiring of CombineContext (a caller-defined context whose
+				// Done() is first consulted there), so whatever the combinator has published by then runs concurrently
+				a, ca := context.WithCancel(bg())
+				var others []context.Context
+				trapAt := 1 + r.Intn(3)
+				for i := 0; i < 5; i++ {
+					o, co := context.WithCancel(bg())
+					defer co()
+					if i == trapAt {
+						others = append(others, &trapCtx{Context: o, trap: ca})
+					} else {
+						others = append(others, o)
+					}
+				}
+				c := bigbuff.CombineContext(a, others...)
+				ca()
+				<-c.Done()
+			}},
 			{"Conflated", func(r *rng.R) {
 				a, ca := context.WithCancel(bg())
 				b, cb := context.WithCancel(bg())
@@ -214,6 +233,18 @@ var subjects = []subject{
 			}},
 		}, func() {}
 	}},
+}
+
+// trapCtx runs trap the first time its Done channel is asked for.
+type trapCtx struct {
+	context.Context
+	once sync.Once
+	trap func()
+}
+
+func (t *trapCtx) Done() <-chan struct{} {
+	t.once.Do(t.trap)
+	return t.Context.Done()
 }
 
 func main() {
